@@ -253,6 +253,8 @@ class Subprocess(object):
             self.change_state(ProcessStates.BACKOFF)
             options.close_parent_pipes(self.pipes)
             options.close_child_pipes(self.pipes)
+            self.pipes = {}
+            self.dispatchers = {}
             return
 
         if pid != 0:
